@@ -380,9 +380,14 @@ func (cl *CollectorWorker) sendTracesEarly(ctx context.Context, sendEarlyBytes i
 		traceTimeout = 60 * time.Second
 	}
 
-	// Sort traces by CacheImpact, heaviest first
+	// Sort traces by CacheImpact, heaviest first. The impact is computed once
+	// per trace, now, so that the order reflects the current ages.
+	impacts := make(map[*types.Trace]int, len(allTraces))
+	for _, trace := range allTraces {
+		impacts[trace] = trace.CacheImpact(traceTimeout)
+	}
 	sort.Slice(allTraces, func(i, j int) bool {
-		return allTraces[i].CacheImpact(traceTimeout) > allTraces[j].CacheImpact(traceTimeout)
+		return impacts[allTraces[i]] > impacts[allTraces[j]]
 	})
 
 	totalDataSizeSent := 0
